@@ -234,3 +234,34 @@ Lemma cancel_while_blocked_fails cfg f hs bits clear tls calls c ru wu rc wc :
   failed rc /\ is_ready (w_bits wc) = false.
 Proof. apply cancel_fails. Qed.
 
+
+(* ------------------------------------------------------------------ the Ready bit, without the final clearing *)
+
+(* Independently of negotiateSession's clearing of Ready on error returns (Model.finish): the
+   negotiator calls never set the bit (feature negotiation applies every bit but Ready; Ready
+   travels in the returned mask), negotiateSession sets it from the mask of a call that
+   returned no error after the ctx test, and then the loop ends. So already the un-finished
+   run ends without Ready whenever it does not end Ok. *)
+Lemma session_err_nr pl n cfg : forall m ns w r w',
+  interp pl (session n m cfg ns) w = (r, w') -> r <> ROk tt -> is_ready (w_bits w') = false.
+Proof.
+  induction m as [|m IH]; intros ns w r w' H Hr.
+  - rewrite session_zero in H. destruct (is_ready (w_bits w)) eqn:Er; inversion H; subst; [exfalso; apply Hr; reflexivity | exact Er].
+  - rewrite session_unfold in H. destruct (is_ready (w_bits w)) eqn:Er.
+    + inversion H; subst. exfalso. apply Hr. reflexivity.
+    + rewrite interp_bind in H.
+      assert (Hn : nrdy (neg_call n cfg ns)).
+      { unfold neg_call. destruct (c_neg cfg); [apply std_call_nrdy | apply comp_call_nrdy]. }
+      pose proof (nrdy_bits pl Hn w Er) as Hb.
+      destruct (interp pl (neg_call n cfg ns) w) as [[x| | |] w1] eqn:Ec; cbn [snd] in Hb;
+        try (inversion H; subst; exact Hb).
+      unfold ctx, or_bits in H. cbn [bind interp] in H.
+      destruct (ctx_done pl w1).
+      * inversion H; subst. cbn. exact Hb.
+      * eapply IH; eassumption.
+Qed.
+
+Lemma unfinished_err_not_ready cfg pl bits clear tls calls r w :
+  interp pl (the_session cfg clear tls) (init_world bits clear tls calls) = (r, w) ->
+  r <> ROk tt -> is_ready (w_bits w) = false.
+Proof. apply session_err_nr. Qed.
